@@ -260,6 +260,10 @@ def c09(run):
                              dict(spec="Spec", constants={"MaxLen": 6 if run.quick() else 7, "Mode": '"design"'},
                                   invariants=["Structural", "StoreRoundTrip"]), "C09", workers=4, threads=1)
     run.add(tlc, None)
+    tlc, s1 = run_tlc_replay(run, "MC_Store", "MC_Store.tla",
+                             dict(spec="Spec", constants={"StoreDerived": "FALSE", "MaxSteps": 8 if run.quick() else 10},
+                                  invariants=["Remembered", "SurvivesRestart"]), "C09", workers=4, threads=1)
+    run.add(tlc, None)
     rounds = 60 if run.quick() else 400
     tlc, s = run_record_validate(run, "store", "store", "Trace_Store.tla", "C09", "store", rounds, shards=8, focus="C09")
     run.add(tlc, s)
